@@ -12,6 +12,7 @@ CONSTANTS Profile, MaxLen, Shard, NShards
 
 \* a piece is one or two argv elements
 Rec == {<<"-includecfg=debug.h">>, <<"-isystemopt/x=y/include">>, <<"-include", "a=b.h">>, <<"-DEMPTY=">>, <<"-D", "EMPTY2=">>, <<"-DA">>, <<"-D", "B">>, <<"-DC=1">>, <<"-D", "E=x=y">>, <<"-DS=a b">>, <<"-DW=a  b">>, <<"-I", "two  blanks">>, <<"-DQ=\"q\"">>, <<"-DF(x)=x">>,
+        <<"-DH=a#b">>,     \* '#' inside a word is an ordinary character of a shell command line (no comment starts there)
         <<"-Iinc">>, <<"-I", "inc2">>, <<"-I", "dir with space">>, <<"-I", "-dashdir">>, <<"-I.">>,
         <<"-isystem", "sys">>, <<"-isystemsys2">>, <<"-include", "pre.h">>, <<"-includepre2.h">>,
         \* values spelled like options that are otherwise ignored
@@ -23,7 +24,7 @@ Unk == {<<"-g3">>, <<"-ggdb">>, <<"-g">>, <<"-O">>, <<"-O2">>, <<"-Ofast">>, <<"
         <<"-funroll-loops">>, <<"-ftemplate-depth=100">>, <<"-dM">>, <<"-E">>, <<"-S">>, <<"-v">>, <<"-Winvalid-pch">>,
         <<"-iquote", "qdir">>, <<"-idirafter", "adir">>, <<"-nostdinc">>, <<"-Dz">>}
 Pieces == CASE Profile = "small" -> {<<"-includecfg=debug.h">>, <<"-isystemopt/x=y/include">>, <<"-DEMPTY=">>, <<"-DS=a b">>, <<"-DW=a  b">>, <<"-DA">>, <<"-D", "B">>, <<"-Iinc">>, <<"-I", "inc2">>, <<"-isystem", "sys">>, <<"-include", "pre.h">>,
-                                     <<"-g3">>, <<"-O2">>, <<"-MF", "dep.d">>, <<"-ccbin", "g++">>, <<"-O">>, <<"-c">>, <<"-o", "out.o">>,
+                                     <<"-DH=a#b">>, <<"-g3">>, <<"-O2">>, <<"-MF", "dep.d">>, <<"-ccbin", "g++">>, <<"-O">>, <<"-c">>, <<"-o", "out.o">>,
                                      <<"-isystemsys2">>, <<"-includepre2.h">>, <<"-Wall">>, <<"-x", "c++">>, <<"-ggdb">>, <<"-I", "-c">>, <<"-include", "-g3">>}
             [] OTHER -> Rec \cup Unk
 
